@@ -118,42 +118,72 @@ def predefined_cases(chk, rng, tier):
     return cases
 
 
-def world_case(chk, rng, wi, n_ops=40):
-    plan, w = random_plan(rng)
-    steps = plan_steps(plan)
-    ops = []
+def rand_op(rng, w, key):
+    """-> (step, prediction, description, unit_level, kinds, op)"""
     syms = list(w.units)
+    r = rng.random()
+    if r < 0.12:
+        s1 = rng.choice(syms)
+        n = rng.choice([-3, -2, -1, 0, 1, 2, 3])
+        k = rng.choice("qu")
+        e1, m1 = operand(rng, w, s1, k)
+        return ({"k": key, "e": OP("**", e1, ["i", n])},
+                w.predict_pow(m1, n),
+                "(%s) ** %d" % (describe_operand(m1), n), False,
+                (k, "n"), "**")
+    s1, s2 = rng.choice(syms), rng.choice(syms)
+    kinds = rng.choice(KINDS2[:4] * 3 + KINDS2[4:])
+    op = rng.choice("*/")
+    e1, m1 = operand(rng, w, s1, kinds[0])
+    e2, m2 = operand(rng, w, s2, kinds[1])
+    return ({"k": key, "e": OP(op, e1, e2)}, w.predict_mul(op, m1, m2),
+            "(%s) %s (%s)" % (describe_operand(m1), op,
+                              describe_operand(m2)),
+            kinds == "uu", kinds, op)
+
+
+def world_case(chk, rng, wi, n_ops=40):
+    from .c17 import topo_shuffle
+    from ..gen import Decl
+    from ..models.world import World
+    plan, w = random_plan(rng)
+    # the same declarations in an order that delays derived types, so that
+    # operations can be evaluated while their result type does not exist yet
+    order = topo_shuffle(rng, plan, delay_derived=True)
+    split = rng.randint(max(1, len(order) // 3), len(order))
+    wpart = World()
+    steps = []
+    ops = []
+    for i, d in enumerate(order):
+        if i == split and wpart.units:
+            for j in range(12):
+                o = rand_op(rng, wpart, "e%d" % j)
+                ops.append(o + (wpart.copy(), "early"))
+                steps.append(o[0])
+        d2 = Decl(d.kind, **{k: v for k, v in d.p.items() if k != "ref_eff"})
+        d2.apply(wpart)
+        steps.extend(d2.steps("d%d" % i))
+    # the early operations once more, and fresh ones, in the full world
+    for o in list(ops):
+        st = dict(o[0])
+        st["k"] = "l" + st["k"][1:]
+        again = rand_again(o, wpart, st)
+        if again is not None:
+            ops.append(again)
+            steps.append(st)
     for j in range(n_ops):
-        r = rng.random()
-        if r < 0.12:
-            s1 = rng.choice(syms)
-            n = rng.choice([-3, -2, -1, 0, 1, 2, 3])
-            k = rng.choice("qu")
-            e1, m1 = operand(rng, w, s1, k)
-            st = {"k": "o%d" % j, "e": OP("**", e1, ["i", n])}
-            ops.append((st, w.predict_pow(m1, n),
-                        "(%s) ** %d" % (describe_operand(m1), n), False,
-                        (k, "n"), "**"))
-        else:
-            s1, s2 = rng.choice(syms), rng.choice(syms)
-            kinds = rng.choice(KINDS2[:4] * 3 + KINDS2[4:])
-            op = rng.choice("*/")
-            e1, m1 = operand(rng, w, s1, kinds[0])
-            e2, m2 = operand(rng, w, s2, kinds[1])
-            st = {"k": "o%d" % j, "e": OP(op, e1, e2)}
-            ops.append((st, w.predict_mul(op, m1, m2),
-                        "(%s) %s (%s)" % (describe_operand(m1), op,
-                                          describe_operand(m2)),
-                        kinds == "uu", kinds, op))
-    steps = steps + [o[0] for o in ops]
+        o = rand_op(rng, wpart, "o%d" % j)
+        ops.append(o + (wpart, "final"))
+        steps.append(o[0])
+    w = wpart
     wid = "world%d" % wi
-    planj = [d.to_json() for d in plan]
+    planj = [d.to_json() for d in order]
 
     def judge(obs, rec, case):
         if obs is None:
             chk.inconclusive_because("world died: %s" % rec.get("died"))
             return
-        failed = [k for k in obs if k.startswith("d") and
+        failed = [k for k in obs if k[0] == "d" and k[1:].isdigit() and
                   obs[k].get("k") == "E"]
         if failed:
             chk.count("world-skipped|valid-declaration-rejected (C15's)")
@@ -161,10 +191,51 @@ def world_case(chk, rng, wi, n_ops=40):
         chk.count("worlds")
         if any(not t.has_ref for t in w.types.values()):
             chk.count("worlds-with-type-without-ref-unit")
-        for st, pred, desc, ul, kinds, op in ops:
-            judge_op(chk, w, pred, obs.get(st["k"]), desc, [st], ul, wid,
-                     kinds, op, plan=planj)
+        early_undefined = set()
+        for st, pred, desc, ul, kinds, op, wm, phase in ops:
+            if phase == "early" and pred["kind"] == "undefined":
+                early_undefined.add(st["k"][1:])
+            if phase == "late" and st["k"][1:] in early_undefined and \
+                    pred["kind"] in ("qty", "number"):
+                chk.count("undefined before its type was declared, defined "
+                          "after")
+            judge_op(chk, wm, pred, obs.get(st["k"]), desc +
+                     ("" if phase == "final" else " [%s]" % phase), [st], ul,
+                     wid, kinds, op, plan=planj)
     return Case(steps, judge, isolate=True)
+
+
+def rand_again(o, wfull, st):
+    """re-predict an early operation in the full world (same expression)"""
+    step, pred, desc, ul, kinds, op, wm, phase = o
+    e = step["e"]
+
+    def opnd(x):
+        if x[0] == "u":
+            return ("u", x[1])
+        if x[0] == "c":         # Quantity(amount, unit)
+            from ..ctl import val as _v
+            amt, u = x[2][0], x[2][1][1]
+            from fractions import Fraction as F_
+            if amt[0] == "i":
+                v = F_(amt[1])
+            elif amt[0] == "F":
+                v = F_(amt[1], amt[2])
+            else:
+                v = F_(amt[1])
+            from ..ops import stored
+            return ("q", stored(wfull, v, u), u)
+        if x[0] == "i":
+            return ("n", x[1])
+        from fractions import Fraction as F_
+        if x[0] == "F":
+            return ("n", F_(x[1], x[2]))
+        return ("n", F_(x[1]))
+    if op == "**":
+        p2 = wfull.predict_pow(opnd(e[2]), e[3][1])
+    else:
+        p2 = wfull.predict_mul(op, opnd(e[2]), opnd(e[3]))
+    return (st, p2, desc, ul, kinds, op, wfull, "late")
 
 
 def run(chk, R, tier, seed):
@@ -172,7 +243,8 @@ def run(chk, R, tier, seed):
     for c in ("outcome|number", "outcome|undefined", "outcome|qty",
               "outcome|scaled", "quantized-result-type", "kinds|uq",
               "kinds|qu", "kinds|uu", "kinds|qq", "kinds|nq", "kinds|nu",
-              "outcome|qty-noref", "outcome|incomm", "worlds"):
+              "outcome|qty-noref", "outcome|incomm", "worlds",
+              "undefined before its type was declared, defined after"):
         chk.require(c)
     cases = predefined_cases(chk, rng, tier)
     run_cases(chk, R, cases, per_program=250)
